@@ -2232,3 +2232,87 @@ pub open spec fn constructed(r: Result<ParsedFormula, io::Error>, contents: DynB
         },
     }
 }
+
+// ---- main() of the command-line tool: the data flow from the parsed formula to the printers (C01 C07 C09 C10 C12)
+
+/// r is the (ordered, reduced) diagram of the formula p holds
+pub open spec fn denotes(r: BDD, p: ParsedFormula) -> bool {
+    robdd(r, 0) && forall|a: Asg| #[trigger] eval(r, a) == sem(p.bdd, a, Map::<Sym, BDD>::empty())
+}
+
+/// r tests only free variables of p's formula, and they are in p's variable list
+pub open spec fn supported(r: BDD, p: ParsedFormula) -> bool {
+    forall|v: Sym| #[trigger] occurs(r, v) ==> free_in(p.bdd, v) && p.vars@.contains(v)
+}
+
+pub open spec fn all_any(row: Cells) -> bool {
+    forall|j: int| 0 <= j < row.len() ==> (#[trigger] row[j]) is Any
+}
+
+// [A16] a Vec has at most usize::MAX elements
+#[verifier::external_body]
+pub proof fn axiom_vec_len_sym(s: &Vec<NamedSymbol>)
+    ensures s@.len() <= usize::MAX
+{}
+
+/// what the constructor guarantees about the column table (its postconditions vars / free_vars / table / plain)
+pub open spec fn well_built(p: ParsedFormula) -> bool {
+    &&& sorted_ids(p.vars@) && distinct_ids(p.vars@)
+    &&& p.free_vars@ == free_prefix(p.vars@, p.bdd, p.vars@.len() as int)
+    &&& table_ok(p.vars@, p.bdd, p.raw2free@, p.vars@.len() as int)
+    &&& subtrees_ok(p.bdd, true) && subtrees_ok(p.bdd, false)
+}
+
+/// [A19, assumed in main()] the variables the formula's diagram tests are in the formula's variable list: the tree's
+/// variable leaves are Var tokens and extract_vars returns every Var token (A9); the link tokens -> tree -> diagram is a
+/// property of the grammar and of the evaluator that is not proved here
+pub open spec fn vars_cover_diagram(p: ParsedFormula) -> bool {
+    forall|r: BDD, v: Sym| denotes(r, p) && #[trigger] occurs(r, v) ==> p.vars@.contains(v)
+}
+
+/// the printers' preconditions for any diagram over the formula's free variables and an all-Any row of the right length
+pub proof fn lemma_printable(p: ParsedFormula, r: BDD, row: Cells)
+    requires
+        well_built(p), robdd(r, 0), supported(r, p),
+        row.len() == p.free_vars@.len(), all_any(row), p.vars@.len() <= usize::MAX,
+    ensures
+        cols_ok(r, p, row.len() as int), cols_inj(r, p), fresh(r, p, row),
+{
+    lemma_cols_ok(p, r);
+    lemma_cols_inj(p, r);
+    assert forall|v: Sym| #[trigger] occurs(r, v) implies row[col(p, v)] is Any by {
+        assert(0 <= col(p, v) < row.len());
+    }
+}
+
+/// with an all-Any start row the printed rows say, for every total assignment of the columns, what the FORMULA evaluates to
+pub open spec fn table_of_formula(out: Rows, p: ParsedFormula, filter: TruthTableEntry) -> bool {
+    &&& forall|i: int| 0 <= i < out.len() ==> filter_ok(filter, (#[trigger] out[i]).1 is True)
+    &&& forall|i: int, ca: ColAsg| 0 <= i < out.len() && #[trigger] covers(out[i].0, ca)
+            ==> sem(p.bdd, of_cols(p, ca), Map::<Sym, BDD>::empty()) == (out[i].1 is True)
+    &&& rows_disjoint(out)
+    &&& forall|ca: ColAsg| filter_ok(filter, #[trigger] sem(p.bdd, of_cols(p, ca), Map::<Sym, BDD>::empty()))
+            ==> exists|i: int| 0 <= i < out.len() && #[trigger] covers(out[i].0, ca)
+}
+
+pub proof fn lemma_table_of_formula(out: Rows, r: BDD, p: ParsedFormula, filter: TruthTableEntry)
+    requires
+        denotes(r, p),
+        rows_sound(out, r, p), rows_disjoint(out),
+        exists|row: Cells| all_any(row) && #[trigger] rows_cover(out, r, p, row, filter),
+        exists|row: Cells| #[trigger] rows_wf(out, row, filter),
+    ensures table_of_formula(out, p, filter)
+{
+    let row0 = choose|row: Cells| #[trigger] rows_wf(out, row, filter);
+    assert forall|i: int| 0 <= i < out.len() implies filter_ok(filter, (#[trigger] out[i]).1 is True) by {}
+    let row = choose|row: Cells| all_any(row) && #[trigger] rows_cover(out, r, p, row, filter);
+    assert forall|ca: ColAsg| filter_ok(filter, #[trigger] sem(p.bdd, of_cols(p, ca), Map::<Sym, BDD>::empty()))
+        implies exists|i: int| 0 <= i < out.len() && #[trigger] covers(out[i].0, ca) by {
+        assert(covers(row, ca));
+        assert(eval(r, of_cols(p, ca)) == sem(p.bdd, of_cols(p, ca), Map::<Sym, BDD>::empty()));
+    }
+    assert forall|i: int, ca: ColAsg| 0 <= i < out.len() && #[trigger] covers(out[i].0, ca)
+        implies sem(p.bdd, of_cols(p, ca), Map::<Sym, BDD>::empty()) == (out[i].1 is True) by {
+        assert(eval(r, of_cols(p, ca)) == sem(p.bdd, of_cols(p, ca), Map::<Sym, BDD>::empty()));
+    }
+}
